@@ -1,6 +1,6 @@
 (* Extraction of the state-machine models (transition-table model, table interpreter, generated-program models). *)
 From Coq Require Import Extraction ExtrOcamlBasic ExtrOcamlNativeString.
-From KV Require Import Lib.TableDef Model.TTable Spec.TableInterp Model.PyShape Gen.PyTmpl Model.PySM Gen.SmlTmpl Model.SmlTT Model.CsShape Gen.CsTmpl Model.CsSM Model.DeclShape Gen.DeclTmpl Model.Decls.
+From KV Require Import Lib.TableDef Model.TTable Spec.TableInterp Model.PyShape Gen.PyTmpl Model.PySM Gen.SmlTmpl Model.SmlTT Model.CsShape Gen.CsTmpl Model.CsSM Model.CsThreads Model.DeclShape Gen.DeclTmpl Model.Decls.
 
 Extraction Blacklist String List Bool.
 
@@ -11,5 +11,5 @@ Separate Extraction
   TableInterp.table_interp
   PySM.gen_py PySM.parse_indent PySM.run_py PySM.code_lines
   SmlTT.gen_sml SmlTT.sml_run SmlTT.camel_steps
-  CsSM.cs_handler CsSM.cs_classes CsSM.cs_handlers CsSM.parse_braces TableInterp.step_rows_quiet TableInterp.table_interp_quiet CsSM.run_cs
+  CsSM.cs_handler CsSM.cs_classes CsSM.cs_handlers CsSM.parse_braces TableInterp.step_rows_quiet TableInterp.table_interp_quiet CsSM.run_cs CsThreads.trun CsThreads.tinit
   Decls.decls_file Decls.refs_cpp Decls.refs_cs.
